@@ -20,6 +20,9 @@ pub enum COp {
     Start,
     Stop,
     StopWithDisconnect,
+    /// stop with a DISCONNECT that does not fit into the drivers' 4096-byte write buffer (6000-byte reason string in
+    /// MQTT 5), so it can be partially encoded when something else happens
+    StopWithLargeDisconnect,
     Close,
     Publish { qos: u8 },
     ConnectOk,
@@ -175,7 +178,7 @@ impl CSim {
         let st = self.state();
         let proto = self.c.protocol_state();
         match op {
-            COp::Stop | COp::StopWithDisconnect | COp::Close => {
+            COp::Stop | COp::StopWithDisconnect | COp::StopWithLargeDisconnect | COp::Close => {
                 if st == St::Connected && proto == gv::EngineState::PendingConnack {
                     self.label("request_during_handshake");
                 }
@@ -192,6 +195,7 @@ impl CSim {
             COp::Start => gv::ClientOp::Start,
             COp::Stop => gv::ClientOp::Stop(None),
             COp::StopWithDisconnect => gv::ClientOp::Stop(Some(DisconnectPacket::builder().build())),
+            COp::StopWithLargeDisconnect => gv::ClientOp::Stop(Some(DisconnectPacket::builder().with_reason_string("r".repeat(6000)).build())),
             COp::Close => gv::ClientOp::Close,
             COp::Publish { qos } => gv::ClientOp::Publish(PublishPacket::builder("cs/t".to_string(), crate::sim::qos_of(*qos)).with_payload(vec![1, 2, 3]).build(), None),
             _ => return,
@@ -399,7 +403,7 @@ impl CSim {
             return;
         }
         match op {
-            COp::Start | COp::Stop | COp::StopWithDisconnect | COp::Close | COp::Publish { .. } => self.user(op),
+            COp::Start | COp::Stop | COp::StopWithDisconnect | COp::StopWithLargeDisconnect | COp::Close | COp::Publish { .. } => self.user(op),
             COp::Fair { steps } => self.fair(*steps as usize),
             _ => match self.state() {
                 St::Stopped | St::Shutdown => self.remapped += 1,
@@ -494,7 +498,8 @@ fn cop_strategy() -> BoxedStrategy<COp> {
     prop_oneof![
         6 => Just(COp::Start),
         4 => Just(COp::Stop),
-        4 => Just(COp::StopWithDisconnect),
+        3 => Just(COp::StopWithDisconnect),
+        2 => Just(COp::StopWithLargeDisconnect),
         1 => Just(COp::Close),
         3 => (0u8..3).prop_map(|qos| COp::Publish { qos }),
         5 => Just(COp::ConnectOk),
@@ -589,7 +594,7 @@ impl Property for C12 {
         let mut c = Cur::new(&data[4..]);
         let mut ops = Vec::new();
         while !c.exhausted() && ops.len() < 149 {
-            let arm = c.weighted(&[6, 4, 4, 1, 3, 5, 2, 1, 4, 6, 6, 2, 1, 2, 1, 6, 1, 3]).unwrap_or(0);
+            let arm = c.weighted(&[6, 4, 3, 1, 3, 5, 2, 1, 4, 6, 6, 2, 1, 2, 1, 6, 1, 3, 2]).unwrap_or(0);
             ops.push(match arm {
                 0 => COp::Start,
                 1 => COp::Stop,
@@ -608,6 +613,7 @@ impl Property for C12 {
                 14 => COp::ReadErr,
                 15 => COp::Respond { failing_connack: c.prob(0.15) },
                 16 => COp::Garbage,
+                18 => COp::StopWithLargeDisconnect,
                 _ => COp::Fair { steps: 1 + c.below(11) as u8 },
             });
         }
@@ -652,7 +658,7 @@ impl Property for C12 {
                     desired = 1;
                     last_request_mark = Some(*mark);
                 }
-                COp::Stop | COp::StopWithDisconnect if desired != 2 => {
+                COp::Stop | COp::StopWithDisconnect | COp::StopWithLargeDisconnect if desired != 2 => {
                     desired = 0;
                     last_request_mark = Some(*mark);
                     was_stopped_at_request = *st == St::Stopped;
@@ -682,7 +688,7 @@ impl Property for C12 {
                     }
                 }
                 0 => {
-                    if sim.marks.iter().any(|(op, _, _)| matches!(op, COp::Stop | COp::StopWithDisconnect | COp::Start)) {
+                    if sim.marks.iter().any(|(op, _, _)| matches!(op, COp::Stop | COp::StopWithDisconnect | COp::StopWithLargeDisconnect | COp::Start)) {
                         if final_state != St::Stopped {
                             violations.push(Violation::new("C12.stop_not_honoured", format!("a stop request that no later start supersedes does not lead to the Stopped state although the transport reacts (client state {:?}, protocol state {:?})", final_state, sim.c.protocol_state()), format!("ops {:?}", case.ops)));
                         } else if let Some(m) = last_request_mark {
